@@ -58,3 +58,279 @@ Proof.
     replace 2 with (Z.of_nat 2) by reflexivity. rewrite <- Nat2Z.inj_pow. lia. }
   lia.
 Qed.
+
+(* ------------------------------------------------------------------ search-tree order *)
+Definition keys_lt (k : Z) (l : list kv) : Prop := Forall (fun e => fst e < k) l.
+Definition keys_gt (k : Z) (l : list kv) : Prop := Forall (fun e => k < fst e) l.
+
+Fixpoint bst (t : tree) : Prop :=
+  match t with
+  | E => True
+  | T _ l k _ r => bst l /\ bst r /\ keys_lt k (inorder l) /\ keys_gt k (inorder r)
+  end.
+
+(* strictly sorted by key: every key present once and in order *)
+Fixpoint ssorted (l : list kv) : Prop :=
+  match l with
+  | [] => True
+  | e :: r => keys_gt (fst e) r /\ ssorted r
+  end.
+
+Lemma keys_lt_app k a b : keys_lt k (a ++ b) <-> keys_lt k a /\ keys_lt k b.
+Proof. apply Forall_app. Qed.
+Lemma keys_gt_app k a b : keys_gt k (a ++ b) <-> keys_gt k a /\ keys_gt k b.
+Proof. apply Forall_app. Qed.
+Lemma keys_lt_cons k e a : keys_lt k (e :: a) <-> fst e < k /\ keys_lt k a.
+Proof. apply Forall_cons_iff. Qed.
+Lemma keys_gt_cons k e a : keys_gt k (e :: a) <-> k < fst e /\ keys_gt k a.
+Proof. apply Forall_cons_iff. Qed.
+Lemma keys_lt_nil k : keys_lt k []. Proof. constructor. Qed.
+Lemma keys_gt_nil k : keys_gt k []. Proof. constructor. Qed.
+#[export] Hint Resolve keys_lt_nil keys_gt_nil : c10.
+
+Lemma keys_lt_trans k k' l : keys_lt k l -> k <= k' -> keys_lt k' l.
+Proof. intros H Hk. eapply Forall_impl; [|exact H]. cbn. intros; lia. Qed.
+Lemma keys_gt_trans k k' l : keys_gt k l -> k' <= k -> keys_gt k' l.
+Proof. intros H Hk. eapply Forall_impl; [|exact H]. cbn. intros; lia. Qed.
+
+Lemma ssorted_app a e b :
+  ssorted (a ++ e :: b) <-> ssorted a /\ ssorted b /\ keys_lt (fst e) a /\ keys_gt (fst e) b.
+Proof.
+  induction a as [|x a IH]; cbn [app ssorted].
+  - split; [intros [H1 H2]; auto with c10 | intros (_ & H2 & _ & H4); auto].
+  - rewrite IH, keys_gt_app, keys_gt_cons, keys_lt_cons. split.
+    + intros ((G1 & G2 & G3) & S1 & S2 & L & G). repeat split; auto.
+    + intros ((G1 & S1) & S2 & (L1 & L) & G). repeat split; auto.
+      eapply keys_gt_trans; [exact G|lia].
+Qed.
+
+Lemma bst_sorted t : bst t <-> ssorted (inorder t).
+Proof.
+  induction t as [|c l IHl k v r IHr]; cbn [bst inorder]; [cbn; tauto|].
+  rewrite ssorted_app, IHl, IHr. cbn [fst]. tauto.
+Qed.
+
+Lemma size_inorder t : length (inorder t) = size t.
+Proof.
+  induction t as [|c l IHl k v r IHr]; cbn [inorder size length]; [reflexivity|].
+  rewrite app_length. cbn [length]. lia.
+Qed.
+
+Lemma inorder_setc c t : inorder (setc c t) = inorder t.
+Proof. destruct t; reflexivity. Qed.
+Lemma bst_setc c t : bst (setc c t) <-> bst t.
+Proof. destruct t; cbn; tauto. Qed.
+
+(* ------------------------------------------------------------------ facts about sorted lists *)
+Lemma find_app {A} (f : A -> bool) a b :
+  find f (a ++ b) = match find f a with Some x => Some x | None => find f b end.
+Proof. induction a as [|x a IH]; cbn; [reflexivity|]. destruct (f x); auto. Qed.
+
+Lemma find_none_all {A} (f : A -> bool) l : Forall (fun x => f x = false) l -> find f l = None.
+Proof. induction 1 as [|x l Hx _ IH]; cbn; [reflexivity|]. rewrite Hx. exact IH. Qed.
+
+Lemma sl_lookup_app k a b :
+  sl_lookup k (a ++ b) = match sl_lookup k a with Some v => Some v | None => sl_lookup k b end.
+Proof. induction a as [|[k' v'] a IH]; cbn; [reflexivity|]. destruct (k =? k'); auto. Qed.
+
+Lemma sl_lookup_lt k l : keys_gt k l -> sl_lookup k l = None.
+Proof.
+  induction 1 as [|[k' v'] l Hx _ IH]; cbn; [reflexivity|]. cbn in Hx.
+  destruct (Z.eqb_spec k k'); [lia|exact IH].
+Qed.
+Lemma sl_lookup_gt k l : keys_lt k l -> sl_lookup k l = None.
+Proof.
+  induction 1 as [|[k' v'] l Hx _ IH]; cbn; [reflexivity|]. cbn in Hx.
+  destruct (Z.eqb_spec k k'); [lia|exact IH].
+Qed.
+
+(* the three-way split of a sorted list around a pivot *)
+Lemma sl_lookup_split k a k' v' b : keys_lt k' a -> keys_gt k' b ->
+  sl_lookup k (a ++ (k', v') :: b) =
+  match k ?= k' with Lt => sl_lookup k a | Eq => Some v' | Gt => sl_lookup k b end.
+Proof.
+  intros La Gb. rewrite sl_lookup_app. cbn [sl_lookup].
+  destruct (Z.compare_spec k k') as [->|Hlt|Hgt].
+  - rewrite sl_lookup_gt by assumption. rewrite Z.eqb_refl. reflexivity.
+  - destruct (Z.eqb_spec k k'); [lia|].
+    rewrite (sl_lookup_lt k b) by (eapply keys_gt_trans; [exact Gb|lia]).
+    destruct (sl_lookup k a); reflexivity.
+  - destruct (Z.eqb_spec k k'); [lia|].
+    rewrite (sl_lookup_gt k a) by (eapply keys_lt_trans; [exact La|lia]). reflexivity.
+Qed.
+
+Lemma sl_insert_split k v a k' v' b : keys_lt k' a ->
+  sl_insert k v (a ++ (k', v') :: b) =
+  match k ?= k' with
+  | Lt => sl_insert k v a ++ (k', v') :: b
+  | Eq => a ++ (k', v) :: b
+  | Gt => a ++ (k', v') :: sl_insert k v b
+  end.
+Proof.
+  induction a as [|[ka va] a IH]; intros La.
+  - cbn. destruct (Z.compare_spec k k'); subst; reflexivity.
+  - apply keys_lt_cons in La. destruct La as [L1 La]. cbn [fst] in L1.
+    cbn [app sl_insert]. specialize (IH La).
+    destruct (Z.compare_spec k k') as [->|Hlt|Hgt].
+    + destruct (Z.compare_spec k' ka); [lia|lia|]. rewrite IH. reflexivity.
+    + destruct (Z.compare_spec k ka); try reflexivity. rewrite IH. reflexivity.
+    + destruct (Z.compare_spec k ka); [lia|lia|]. rewrite IH. reflexivity.
+Qed.
+
+Lemma sl_delete_split k a k' v' b : keys_lt k' a ->
+  sl_delete k (a ++ (k', v') :: b) =
+  match k ?= k' with
+  | Lt => sl_delete k a ++ (k', v') :: b
+  | Eq => a ++ b
+  | Gt => a ++ (k', v') :: sl_delete k b
+  end.
+Proof.
+  induction a as [|[ka va] a IH]; intros La.
+  - cbn. destruct (Z.compare_spec k k'); subst; reflexivity.
+  - apply keys_lt_cons in La. destruct La as [L1 La]. cbn [fst] in L1.
+    cbn [app sl_delete]. specialize (IH La).
+    destruct (Z.compare_spec k k') as [->|Hlt|Hgt].
+    + destruct (Z.compare_spec k' ka); [lia|lia|]. rewrite IH. reflexivity.
+    + destruct (Z.compare_spec k ka); try reflexivity. rewrite IH. reflexivity.
+    + destruct (Z.compare_spec k ka); [lia|lia|]. rewrite IH. reflexivity.
+Qed.
+
+Ltac dfind x := match goal with |- context [find ?f x] => destruct (find f x) end.
+
+(* ------------------------------------------------------------------ stage 1: queries on any search tree *)
+Lemma lookup_spec k t : bst t -> lookup k t = sl_lookup k (inorder t).
+Proof.
+  induction t as [|c l IHl k' v' r IHr]; [reflexivity|].
+  intros (Bl & Br & Ll & Gr). cbn [lookup inorder].
+  rewrite sl_lookup_split by assumption.
+  destruct (k ?= k'); auto.
+Qed.
+
+Lemma min_entry_spec t : min_entry t = sl_first (inorder t).
+Proof.
+  induction t as [|c l IHl k v r _]; [reflexivity|]. cbn [min_entry inorder].
+  destruct l as [|lc ll lk lv lr]; [reflexivity|]. rewrite IHl. unfold sl_first.
+  cbn [inorder]. destruct (inorder ll); reflexivity.
+Qed.
+
+Lemma max_entry_spec t : max_entry t = sl_last (inorder t).
+Proof.
+  induction t as [|c l _ k v r IHr]; [reflexivity|]. cbn [max_entry inorder].
+  unfold sl_last in *. rewrite rev_app_distr. cbn [rev]. rewrite <- app_assoc. cbn [app].
+  destruct r as [|rc rl rk rv rr].
+  - reflexivity.
+  - rewrite IHr. cbn [inorder]. rewrite rev_app_distr. cbn [rev]. rewrite <- app_assoc. cbn [app].
+    destruct (rev (inorder rr)); reflexivity.
+Qed.
+
+Lemma keys_lt_find_ge k k' l : keys_lt k' l -> k' <= k -> find (fun e => k <=? fst e) l = None.
+Proof.
+  intros H Hk. apply find_none_all. eapply Forall_impl; [|exact H]. cbn. intros e He.
+  apply Z.leb_gt. lia.
+Qed.
+Lemma keys_lt_find_gt k k' l : keys_lt k' l -> k' <= k -> find (fun e => k <? fst e) l = None.
+Proof.
+  intros H Hk. apply find_none_all. eapply Forall_impl; [|exact H]. cbn. intros e He.
+  apply Z.ltb_ge. lia.
+Qed.
+
+Lemma ceiling_from_spec k t anc : bst t ->
+  ceiling_from k t anc = match sl_ceiling k (inorder t) with Some e => Some e | None => anc end.
+Proof.
+  revert anc. induction t as [|c l IHl k' v' r IHr]; intros anc; [reflexivity|].
+  intros (Bl & Br & Ll & Gr). cbn [ceiling_from inorder]. unfold sl_ceiling in *.
+  rewrite find_app. cbn [find fst].
+  destruct (Z.compare_spec k k') as [->|Hlt|Hgt].
+  - rewrite (keys_lt_find_ge k' k') by (assumption || lia). rewrite Z.leb_refl. reflexivity.
+  - rewrite IHl by assumption. dfind (inorder l); [reflexivity|].
+    destruct (Z.leb_spec k k'); [reflexivity|lia].
+  - rewrite (keys_lt_find_ge k k') by (assumption || lia).
+    destruct (Z.leb_spec k k'); [lia|]. apply IHr; assumption.
+Qed.
+
+Lemma higher_from_spec k t anc : bst t ->
+  higher_from k t anc = match sl_higher k (inorder t) with Some e => Some e | None => anc end.
+Proof.
+  revert anc. induction t as [|c l IHl k' v' r IHr]; intros anc; [reflexivity|].
+  intros (Bl & Br & Ll & Gr). cbn [higher_from inorder]. unfold sl_higher in *.
+  rewrite find_app. cbn [find fst].
+  destruct (Z.compare_spec k k') as [->|Hlt|Hgt].
+  - rewrite (keys_lt_find_gt k' k') by (assumption || lia). rewrite Z.ltb_irrefl. apply IHr; assumption.
+  - rewrite IHl by assumption. dfind (inorder l); [reflexivity|].
+    destruct (Z.ltb_spec k k'); [reflexivity|lia].
+  - rewrite (keys_lt_find_gt k k') by (assumption || lia).
+    destruct (Z.ltb_spec k k'); [lia|]. apply IHr; assumption.
+Qed.
+
+Lemma keys_gt_rev k l : keys_gt k (rev l) <-> keys_gt k l.
+Proof. unfold keys_gt. rewrite !Forall_forall. split; intros H x Hx; apply H; [rewrite <- in_rev|rewrite in_rev]; exact Hx. Qed.
+
+Lemma keys_gt_find_le k k' l : keys_gt k' l -> k <= k' -> find (fun e => fst e <=? k) l = None.
+Proof.
+  intros H Hk. apply find_none_all. eapply Forall_impl; [|exact H]. cbn. intros e He.
+  apply Z.leb_gt. lia.
+Qed.
+Lemma keys_gt_find_lt k k' l : keys_gt k' l -> k <= k' -> find (fun e => fst e <? k) l = None.
+Proof.
+  intros H Hk. apply find_none_all. eapply Forall_impl; [|exact H]. cbn. intros e He.
+  apply Z.ltb_ge. lia.
+Qed.
+
+Lemma rev_inorder_node l k v r :
+  rev (inorder l ++ (k, v) :: inorder r) = rev (inorder r) ++ (k, v) :: rev (inorder l).
+Proof. rewrite rev_app_distr. cbn [rev]. rewrite <- app_assoc. reflexivity. Qed.
+
+Lemma floor_from_spec k t anc : bst t ->
+  floor_from k t anc = match sl_floor k (inorder t) with Some e => Some e | None => anc end.
+Proof.
+  revert anc. induction t as [|c l IHl k' v' r IHr]; intros anc; [reflexivity|].
+  intros (Bl & Br & Ll & Gr). cbn [floor_from inorder]. unfold sl_floor in *.
+  rewrite rev_inorder_node, find_app. cbn [find fst].
+  apply keys_gt_rev in Gr.
+  destruct (Z.compare_spec k k') as [->|Hlt|Hgt].
+  - rewrite (keys_gt_find_le k' k') by (assumption || lia). rewrite Z.leb_refl. reflexivity.
+  - rewrite (keys_gt_find_le k k') by (assumption || lia).
+    destruct (Z.leb_spec k' k); [lia|]. apply IHl; assumption.
+  - rewrite IHr by assumption. dfind (rev (inorder r)); [reflexivity|].
+    destruct (Z.leb_spec k' k); [reflexivity|lia].
+Qed.
+
+Lemma lower_from_spec k t anc : bst t ->
+  lower_from k t anc = match sl_lower k (inorder t) with Some e => Some e | None => anc end.
+Proof.
+  revert anc. induction t as [|c l IHl k' v' r IHr]; intros anc; [reflexivity|].
+  intros (Bl & Br & Ll & Gr). cbn [lower_from inorder]. unfold sl_lower in *.
+  rewrite rev_inorder_node, find_app. cbn [find fst].
+  apply keys_gt_rev in Gr.
+  destruct (Z.compare_spec k k') as [->|Hlt|Hgt].
+  - rewrite (keys_gt_find_lt k' k') by (assumption || lia). rewrite Z.ltb_irrefl. apply IHl; assumption.
+  - rewrite (keys_gt_find_lt k k') by (assumption || lia).
+    destruct (Z.ltb_spec k' k); [lia|]. apply IHl; assumption.
+  - rewrite IHr by assumption. dfind (rev (inorder r)); [reflexivity|].
+    destruct (Z.ltb_spec k' k); [reflexivity|lia].
+Qed.
+
+Lemma opt_id {A} (o : option A) : match o with Some e => Some e | None => None end = o.
+Proof. destruct o; reflexivity. Qed.
+
+Lemma ceiling_spec k t : bst t -> ceiling k t = sl_ceiling k (inorder t).
+Proof. intros H. unfold ceiling. rewrite ceiling_from_spec by assumption. apply opt_id. Qed.
+Lemma higher_spec k t : bst t -> higher k t = sl_higher k (inorder t).
+Proof. intros H. unfold higher. rewrite higher_from_spec by assumption. apply opt_id. Qed.
+Lemma floor_spec k t : bst t -> floor k t = sl_floor k (inorder t).
+Proof. intros H. unfold floor. rewrite floor_from_spec by assumption. apply opt_id. Qed.
+Lemma lower_spec k t : bst t -> lower k t = sl_lower k (inorder t).
+Proof. intros H. unfold lower. rewrite lower_from_spec by assumption. apply opt_id. Qed.
+
+From Coq Require Import Permutation.
+Lemma preorder_perm t : Permutation (preorder t) (inorder t).
+Proof.
+  induction t as [|c l IHl k v r IHr]; cbn [preorder inorder]; [constructor|].
+  apply Permutation_cons_app. apply Permutation_app; assumption.
+Qed.
+Lemma postorder_perm t : Permutation (postorder t) (inorder t).
+Proof.
+  induction t as [|c l IHl k v r IHr]; cbn [postorder inorder]; [constructor|].
+  rewrite app_assoc. rewrite <- Permutation_cons_append.
+  apply Permutation_cons_app. apply Permutation_app; assumption.
+Qed.
